@@ -116,7 +116,8 @@ theorem walk_sat (cfg : Cfg) (g : Geo) (pos : Int) (f : Nat) (target : Nat) :
           · intro e m' hres
             obtain ⟨a, b, c⟩ := hp.done e m' hres
             refine ⟨⟨rfl, hgo.1, a⟩, ?_, c⟩
-            rw [b]
+            have hss : (setFinalized st s).ssize = st.ssize := rfl
+            rw [b, hss]
             simp only [sumOn, St.ssize]
             omega
     · rw [if_neg hgo]
@@ -184,7 +185,7 @@ theorem finalizeOrThrow_sat (cfg : Cfg) (g : Geo) (pos : Int) (st : St) (f : Nat
           by_cases hk : (cfg.v.finalizeChecksKnownSize && (st1.an f).sfs != 0 && (st1.an f).sfs != (st1.le f).size) = true
           · simp only [hk, if_true]; exact Sat.pure ⟨C, by simp, fun _ => thrown⟩
           · simp only [hk, if_false, Bool.false_eq_true]
-            refine Sat.pure ⟨C, fun _ => ?_, by simp⟩
+            refine Sat.pure ⟨C, fun _ => ?_, fun h => by simp at h⟩
             refine ⟨⟨e, hseg, by omega⟩, hp.nodup, hp.slots, by omega, by omega, ?_, hp.ls, hp.sl, hp.free, ?_, ?_⟩
             · intro hflag
               rw [han, hle] at hk
